@@ -230,7 +230,8 @@ func runC12(c *Ctx) {
 			case fn == r.Do:
 				okBefore := true
 				for _, g := range r.GoCalls {
-					if !core.Dominates(a.at, g.(ssa.Instruction)) {
+					// the store must not be executable after a goroutine was started
+					if w := core.ReachAvoiding(core.PointOf(g.(ssa.Instruction)), func(x ssa.Instruction) bool { return x == a.at }, nil, nil); len(w) > 0 {
 						okBefore = false
 					}
 				}
